@@ -146,6 +146,21 @@ func (m localMem) load(loc *Term, typ types.Type) *Term {
 			return nil
 		}
 	}
+	// an array whose cells were stored one by one (a ranged array literal is loaded as a whole)
+	if typ != nil {
+		if arr, ok := typ.Underlying().(*types.Array); ok && arr.Len() <= 64 {
+			elems := make([]*Term, arr.Len())
+			for i := range elems {
+				el := &Term{Op: OIndex, Args: []*Term{{Op: OAddr, Args: []*Term{loc}}, Const(constant.MakeInt64(int64(i)), types.Typ[types.Int])}}
+				v := m.load(el, arr.Elem())
+				if v == nil {
+					return nil
+				}
+				elems[i] = v
+			}
+			return &Term{Op: "list", Args: elems}
+		}
+	}
 	// an aggregate whose fields were stored one by one
 	if typ != nil {
 		if st, ok := typ.Underlying().(*types.Struct); ok {
